@@ -167,7 +167,83 @@ Section AddEdge.
     generalize (f x a) (f b x) (f b a). wt_crush. f_equal. lia.
   Qed.
 
-  Lemma upd_gamma g : gfun upd_f g <-> (gfun f g /\ (a = a -> g b - g a <= w) /\
-                                       (f a a = Some 0 -> f b b = Some 0 -> g b - g a <= w)).
-  Proof. Abort.
+  Lemma upd_gfun g : gfun f g -> g b - g a <= w -> gfun upd_f g.
+  Proof.
+    intros G E x y k. unfold upd_f.
+    pose proof (G x y) as H1. pose proof (G x a) as H2. pose proof (G b y) as H3.
+    revert H1 H2 H3. generalize (f x y) (f x a) (f b y). intros p q r H1 H2 H3 H.
+    destruct p as [p|], q as [q|], r as [r|]; simpl in H; inversion H; subst; clear H;
+      try specialize (H1 _ eq_refl); try specialize (H2 _ eq_refl); try specialize (H3 _ eq_refl); lia.
+  Qed.
+
+  Lemma upd_gfun_inv g : f a a = Some 0 -> f b b = Some 0 -> gfun upd_f g ->
+    gfun f g /\ g b - g a <= w.
+  Proof.
+    intros Da Db G. split.
+    - intros x y k H. pose proof (G x y) as G1. unfold upd_f in G1. rewrite H in G1.
+      destruct (wadd (wadd (f x a) (Some w)) (f b y)) as [q|]; simpl in G1.
+      + specialize (G1 _ eq_refl). lia.
+      + apply G1. reflexivity.
+    - pose proof (G a b) as G1. unfold upd_f in G1. rewrite Da, Db in G1.
+      destruct (f a b) as [p|]; simpl in G1; specialize (G1 _ eq_refl); lia.
+  Qed.
+
+  Lemma upd_support n : support n f -> support n upd_f.
+  Proof.
+    intros S x y H. unfold upd_f. destruct H as [H|H].
+    - rewrite (S x y), (S x a) by auto. reflexivity.
+    - rewrite (S x y), (S b y) by auto. destruct (wadd (f x a) (Some w)); reflexivity.
+  Qed.
 End AddEdge.
+
+Lemma gmat_tab n f s : support n f -> (gmat (tab n f) s <-> gfun f (val s)).
+Proof.
+  intros S. unfold gmat, gfun. split; intros H i j k E.
+  - apply H. rewrite tab_ext; auto.
+  - apply H. rewrite tab_ext in E; auto.
+Qed.
+
+Lemma add_edge_m_spec n m a b w :
+  mwf n m -> (a < n)%nat -> (b < n)%nat ->
+  zwf n (add_edge_m n m (a, b, w)) /\
+  (forall s, gamma (add_edge_m n m (a, b, w)) s <-> (gmat m s /\ val s b - val s a <= w)).
+Proof.
+  intros [S [D C]] Ha Hb. unfold add_edge_m.
+  destruct (wleb (Some 0) (wadd (Some w) (mget m b a))) eqn:E; simpl.
+  - apply wleb_spec in E. split.
+    + split; [apply tab_support|]. split.
+      * intros i Hi. rewrite mget_tab. apply Nat.ltb_lt in Hi. rewrite Hi. simpl.
+        apply (upd_diag (mget m) a b w C E). apply D. apply Nat.ltb_lt; auto.
+      * apply closed_tab. apply upd_closed; auto.
+    + intros s. fold (upd_f (mget m) a b w).
+      rewrite gmat_tab by (apply upd_support; auto). split.
+      * intros G. apply (upd_gfun_inv (mget m) a b w); auto.
+      * intros [G H]. apply upd_gfun; auto.
+  - split; auto. intros s. split; [tauto|]. intros [G H].
+    assert (X : wleb (Some 0) (wadd (Some w) (mget m b a)) = true); [|congruence].
+    apply wleb_spec. pose proof (G b a) as G1.
+    destruct (mget m b a) as [k|]; simpl; auto. specialize (G1 _ eq_refl). lia.
+Qed.
+
+Lemma add_edge_spec n z e :
+  zwf n z -> edge_in n e ->
+  zwf n (add_edge n z e) /\ (forall s, gamma (add_edge n z e) s <-> (gamma z s /\ edge_holds s e)).
+Proof.
+  destruct e as [[a b] w]. intros W [Ha Hb]. destruct z as [|m]; simpl.
+  - split; auto. intros s; tauto.
+  - apply add_edge_m_spec; auto.
+Qed.
+
+Lemma add_edges_spec n es : forall z,
+  zwf n z -> Forall (edge_in n) es ->
+  zwf n (add_edges n z es) /\
+  (forall s, gamma (add_edges n z es) s <-> (gamma z s /\ Forall (edge_holds s) es)).
+Proof.
+  induction es as [|e r IH]; intros z W F; simpl.
+  - split; auto. intros s. split; [intros; split; auto|tauto].
+  - inversion F; subst. destruct (add_edge_spec n z e W H1) as [W1 G1].
+    destruct (IH _ W1 H2) as [W2 G2]. split; auto.
+    intros s. rewrite G2, G1. split.
+    + intros [[A B] Cc]. split; auto.
+    + intros [A B]. inversion B; subst. tauto.
+Qed.
